@@ -501,14 +501,17 @@ Proof.
   destruct (flush_sends c t p (fst stamp) (snd stamp) (l_buf (get_level h' lv))) as [es sq']. cbn [fst] in Qs.
   destruct hasbp.
   - destruct (l_chaser (get_level h' lv) || (h' =? 0)%nat); cbn [snd]; [exact Qs|].
-    specialize (IH true leader (set_buf h' [] lv) (sq', snd stamp) ls). destruct (flush c t p h' true leader _ _ ls) as [res e2].
+    match goal with |- context [flush c t p h' true leader (set_buf h' [] lv) ?sx ls] =>
+      specialize (IH true leader (set_buf h' [] lv) sx ls); destruct (flush c t p h' true leader (set_buf h' [] lv) sx ls) as [res e2] end.
     cbn [snd] in *. rewrite ppsh_app, Qs, IH. reflexivity.
   - destruct (next_lres ls) as [[b|e] r].
     + destruct (l_chaser (get_level h' lv) || (h' =? 0)%nat); cbn [snd]; [rewrite ppsh_app, Qs; reflexivity|].
-      specialize (IH true b (set_buf h' [] lv) (sq', snd stamp) r). destruct (flush c t p h' true b _ _ r) as [res e2].
+      match goal with |- context [flush c t p h' true b (set_buf h' [] lv) ?sx r] =>
+        specialize (IH true b (set_buf h' [] lv) sx r); destruct (flush c t p h' true b (set_buf h' [] lv) sx r) as [res e2] end.
       cbn [snd] in *. rewrite !ppsh_app, Qs, IH. reflexivity.
     + destruct (l_chaser (get_level h' lv) || (h' =? 0)%nat); cbn [snd]; [apply ppsh_nosend, ns_return_errors|].
-      specialize (IH false leader (set_buf h' [] lv) (fst stamp, snd stamp) r). destruct (flush c t p h' false leader _ _ r) as [res e2].
+      match goal with |- context [flush c t p h' false leader (set_buf h' [] lv) ?sx r] =>
+        specialize (IH false leader (set_buf h' [] lv) sx r); destruct (flush c t p h' false leader (set_buf h' [] lv) sx r) as [res e2] end.
       cbn [snd] in *. rewrite ppsh_app, (ppsh_nosend _ (ns_return_errors _ _)), IH. reflexivity.
 Qed.
 Lemma ppsh_pp_forward c t p st m stamp ls pre : ppsh pre = true -> ppsh (snd (pp_forward c t p st m stamp ls pre)) = true.
